@@ -337,19 +337,27 @@ def arc_reversed_swaps_the_ends_and_flips_sweep(c):
     c.ensures('sweep-flipped', c.py_eq(g['sweep'], ops.Not(c.get(arc, 'sweep'))))
 
 
+def _constructor_invariant(c, arc, p):
+    """what the constructor establishes (C04): the stored parameters put point(0) at start and point(1) at end"""
+    c.assume(ops.And(ops.eq(c.callm(arc, 'point', 0), p['start']), ops.eq(c.callm(arc, 'point', 1), p['end'])))
+
+
 def _check_crop(c, g, arc, p, t0, t1, tag):
     delta = p['delta']
     c.ensures('%s:ends-are-point(t0)-and-point(t1)' % tag, ops.And(ops.eq(g['start'], c.callm(arc, 'point', t0)), ops.eq(g['end'], c.callm(arc, 'point', t1))))
     c.ensures('%s:radii-rotation-sweep-unchanged' % tag, ops.And(ops.eq(g['radius'], ops.cx(p['rx'], p['ry'])), ops.eq(g['rotation'], p['rot']),
                                                                  g['sweep'] is c.get(arc, 'sweep')))
     span = ops.absv(delta * (t1 - t0))
-    c.ensures('%s:large_arc-iff-the-piece-spans-more-than-180-degrees' % tag, ops.Iff(g['large_arc'] == 1, ops.lt(180, span)))
+    la = g['large_arc']
+    la = (la == 1) if isinstance(la, (bool, int)) else la          # 0/1 in the code as it is; a condition is fine too
+    c.ensures('%s:large_arc-iff-the-piece-spans-more-than-180-degrees' % tag, ops.Iff(la, ops.lt(180, span)))
 
 
 @contract('C09', 'path.Arc.cropped', params=[{'_no_bounded': True}])
 def arc_cropped_passes_the_endpoint_parameters_of_the_piece(c):
     from contracts.c04 import arc_state
     arc, p = arc_state(c)
+    _constructor_invariant(c, arc, p)
     calls = _arc_ctor_spy(c)
     t0, t1 = c.real('t0'), c.real('t1')
     c.assume(ops.And(ops.le(0, t0), ops.lt(t0, t1), ops.le(t1, 1)))
@@ -362,6 +370,7 @@ def arc_cropped_passes_the_endpoint_parameters_of_the_piece(c):
 def arc_split_is_two_crops_that_meet_at_point_t(c):
     from contracts.c04 import arc_state
     arc, p = arc_state(c)
+    _constructor_invariant(c, arc, p)
     calls = _arc_ctor_spy(c)
     t = c.real('t')
     c.assume(ops.And(ops.lt(0, t), ops.lt(t, 1)))
